@@ -56,6 +56,10 @@ def templates(names, pids):
         ('kill', {'name': n, 'signum': 15}), ('signal', {'name': n, 'signum': 10}),
         ('rm', {'name': n}), ('add', {'name': 'newone', 'cmd': 'w_newone', 'options': {'numprocesses': 1}}),
         ('add', {'name': 'newtwo', 'cmd': 'w_newtwo', 'start': True, 'options': dict(VALID_OPTS[:2])}),
+        # the documented `hooks` option of add (a mapping hook name -> dotted name), resolvable or not
+        ('add', {'name': 'newhk', 'cmd': 'w_newhk', 'options': {'numprocesses': 1, 'hooks': {'before_start': 'no.such.module.fn'}}}),
+        ('add', {'name': 'newhk2', 'cmd': 'w_newhk2', 'start': True,
+                 'options': {'hooks': {'after_start': 'os.getcwd', 'before_stop': 'nosuchmodule_zz.f'}}}),
         ('status', {'name': n}), ('list', {'name': n}), ('numprocesses', {'name': n}), ('stats', {'name': n}),
         ('numwatchers', {}), ('globaloptions', {}), ('listsockets', {}), ('dstats', {}), ('reloadconfig', {}),
     ]
